@@ -1830,7 +1830,12 @@ where
             local_name!("xlink:type") => Some(qualname!("xlink" xlink "type")),
             local_name!("xml:lang") => Some(qualname!("xml" xml "lang")),
             local_name!("xml:space") => Some(qualname!("xml" xml "space")),
-            local_name!("xmlns") => Some(qualname!("" xmlns "xmlns")),
+            // No prefix (not an empty one) for the unprefixed xmlns attribute.
+            local_name!("xmlns") => Some(QualName {
+                prefix: None,
+                ns: ns!(xmlns),
+                local: local_name!("xmlns"),
+            }),
             local_name!("xmlns:xlink") => Some(qualname!("xmlns" xmlns "xlink")),
             _ => None,
         });
